@@ -87,14 +87,24 @@ class Ctx:
 # ----------------------------------------------------------------------------------------
 # subprocess helpers
 # ----------------------------------------------------------------------------------------
-def sh(cmd, timeout=600, cwd=None, env=None, input=None, check=False):
+def _big_stack():
+    # coqc parses a long list literal (e.g. a 60 KB request target) recursively: lift the soft stack limit
+    import resource
+    try:
+        soft, hard = resource.getrlimit(resource.RLIMIT_STACK)
+        resource.setrlimit(resource.RLIMIT_STACK, (hard, hard))
+    except Exception:
+        pass
+
+
+def sh(cmd, timeout=600, cwd=None, env=None, input=None, check=False, big_stack=False):
     e = dict(os.environ)
     e.setdefault("CARGO_NET_OFFLINE", "true")
     if env:
         e.update(env)
     try:
         p = subprocess.run(cmd, cwd=cwd, env=e, input=input, capture_output=True, text=True,
-                           timeout=timeout, shell=isinstance(cmd, str))
+                           timeout=timeout, shell=isinstance(cmd, str), preexec_fn=_big_stack if big_stack else None)
         rc, out, err = p.returncode, p.stdout, p.stderr
     except subprocess.TimeoutExpired as ex:
         rc = 124
@@ -416,7 +426,7 @@ def coq_eval(ctx, requires, exprs, prelude="", shard=200, timeout=600, name="cas
             f.write(prelude + "\n")
             for j, e in enumerate(sh_exprs):
                 f.write('Goal True. idtac "@@CASE %d". Abort.\nEval vm_compute in (%s).\n' % (j, e))
-        rc, out, err = sh(["coqc", "-noglob", "-Q", COQ, "GPA", path], timeout=timeout)
+        rc, out, err = sh(["coqc", "-noglob", "-Q", COQ, "GPA", path], timeout=timeout, big_stack=True)
         if rc != 0:
             raise RuntimeError("coqc failed on %s: %s" % (path, (out + err)[-3000:]))
         res = []
